@@ -385,10 +385,12 @@ func (f *frame) contractCall(fc *FuncContract, callee *ssa.Function, args []sval
 	th := t.th
 	t.callSeq[fc.Name]++
 	site := fmt.Sprintf("%s#%d", fc.Name, t.callSeq[fc.Name])
-	if (fc.Theory == "bv") != th.bv {
-		return f.crossTheoryCall(fc, callee, args, site)
-	}
 	env := &specEnv{f: f, names: map[string]sval{}, fn: callee, atCall: true}
+	if (fc.Theory == "bv") != th.bv {
+		// The callee's body is verified against the other reading of the same contract text.
+		env.crossTheory = true
+		t.assumptions["cross-theory contract use (clause read in "+map[bool]string{true: "bv", false: "int"}[th.bv]+" here, proved in the other theory): "+fc.Pkg+"."+fc.Name] = true
+	}
 	for i, p := range callee.Params {
 		a := args[i]
 		a.typ = p.Type()
@@ -437,6 +439,18 @@ func (f *frame) contractCall(fc *FuncContract, callee *ssa.Function, args []sval
 				ms = append(ms, mf{lv.heap, obj, lv.typ})
 			}
 		}
+		// exact updates, evaluated in the pre-state
+		type upd struct {
+			mem     *Cell
+			addr, v Expr
+		}
+		var ups []upd
+		exact := map[string]bool{}
+		for _, u := range fc.Updates {
+			mem, addr, v := f.specUpdate(u, env)
+			ups = append(ups, upd{mem, t.newTemp("uaddr", addr), t.newTemp("uval", v)})
+			exact[mem.Name] = true
+		}
 		// snapshot for old()
 		env.oldMap = map[string]*Cell{}
 		snap := func(c *Cell) {
@@ -462,7 +476,13 @@ func (f *frame) contractCall(fc *FuncContract, callee *ssa.Function, args []sval
 			}
 			byMem[w.mem.Name] = append(byMem[w.mem.Name], w)
 		}
+		for _, u := range ups {
+			t.cur.Assign(u.mem, Store(u.mem, u.addr, u.v))
+		}
 		for _, name := range memOrder {
+			if exact[name] {
+				continue
+			}
 			list := byMem[name]
 			mem := list[0].mem
 			old := env.oldMap[name]
